@@ -487,15 +487,19 @@ public:
       _shutdown.store(false, std::memory_order_release);
     }
 
-    _accepting.store(true, std::memory_order_release);
-    _lifecycleState.store(LifecycleState::Running, std::memory_order_release);
-
-    // Spawn initial threads if needed
+    // Spawn the initial threads BEFORE the pool starts accepting: a submission that
+    // is accepted while this loop is still running spawns workers of its own
+    // (_threads.size() < _maxSize), and the loop then adds _initialSize more on
+    // top of them - more than _maxSize threads. Open the gate first and publish
+    // Running last, so whoever sees Running can submit.
     std::size_t workerCount = _workerScaling ? _initialSize : _maxSize;
     for (std::size_t i = 0; i < workerCount; ++i)
     {
       spawnWorker();
     }
+
+    _accepting.store(true, std::memory_order_release);
+    _lifecycleState.store(LifecycleState::Running, std::memory_order_release);
 
     return LifecycleResult(true, LifecycleState::Running, "ThreadPool started");
   }
